@@ -62,7 +62,7 @@ def run(ctx):
 
     # ---- 3. generated graphs through storage (scoped root), three chunkings, with / without a vocabulary
     rng = ctx.rng
-    ngraphs = ctx.n(260, 4000)
+    ngraphs = ctx.n(260, 1500)
     maxk = 1024 if ctx.tier == "thorough" else 128
     for i in range(ngraphs):
         size = rng.choice([1, 2, 3, 4, 6, 8, 12, 16, 24] if ctx.tier != "thorough" else [1, 2, 4, 8, 16, 32, 64, 100])
@@ -118,6 +118,15 @@ def witnesses(I):
     def abl():
         L = []; A = (L,); B = (A,); L.append(B); return A
 
+    def abl_wide():
+        L = []; A = (L, 1); B = (0, A, 2); L.append(B); return A
+
+    def abl_frozen():
+        c = I.CA(); A = (c,); F = frozenset([A, 7]); c.x = [F, {F, 1}]; return A
+
+    def abl_nested():
+        L = []; A = (1, L); B = (A, A, 3); C = (B, 4); L.extend([C, B, {"k": C}]); return A
+
     def set_alias():
         s = set([1, (2, 3)]); return [s, s, frozenset([(2, 3)]), frozenset([(2, 3)])]
 
@@ -131,7 +140,8 @@ def witnesses(I):
         ("D4-mixed-keys", lambda: {1: 2, "a": 3}, False),
         ("D4-mixed-keys-nested", lambda: [{(1, 2): "x", b"k": 1.5, None: None, "a": []}], False),
         ("self-list", self_list, False), ("tuple-list-cycle", tuple_list_cycle, False), ("aliasing", aliasing, False),
-        ("dict-self", dict_self, False), ("nested-tuple-cycle", nested_tuple_cycle, False), ("A-B-L", abl, False),
+        ("dict-self", dict_self, False), ("nested-tuple-cycle", nested_tuple_cycle, False), ("A-B-L", abl, False), ("A-B-L-wide", abl_wide, False), ("A-B-L-frozen", abl_frozen, False),
+        ("A-B-L-nested", abl_nested, False),
         ("set-alias", set_alias, False), ("copy-in-cycle", copy_in_cycle, False), ("copy-twice", copy_twice, False),
         ("int-boundaries", lambda: [2 ** 31 - 1, 2 ** 31, -2 ** 31, -2 ** 31 - 1, 2 ** 64, -(2 ** 64), 0, -1, 2 ** 448, 2 ** 8000], False),
         ("float-specials", lambda: [I.float_of_bits("7ff0000000000001"), -0.0, 0.0, float("inf")], False),
@@ -208,7 +218,7 @@ def roundtrip_case(ctx, I, name, objs, voc, coq_cases, corpus=False):
         d = I.oracle_iso(objs, got)
         if d:
             ok_all = False
-            ctx.fail("oracle/" + oracle_sig(d), "round trip changed the graph (chunking %s): %s; graph: %s" % (how, d, " ; ".join(key)[:700]),
+            ctx.fail("oracle/" + oracle_sig(d, I, terms), "round trip changed the graph (chunking %s): %s; graph: %s" % (how, d, " ; ".join(key)[:700]),
                      replay=dict(case=name, term=key, chunking=how, cuts=cuts[:50], difference=d, data=data.hex()[:4000]))
             break
         # no object of the received graph is an object of the sent graph (a copy, not the original)
@@ -225,7 +235,9 @@ def roundtrip_case(ctx, I, name, objs, voc, coq_cases, corpus=False):
         coq_cases.append(dict(name=name, scoped=True, n=0, terms=terms, voc=voc, data=data, hazard=bool(hazards)))
 
 
-def oracle_sig(d):
+def oracle_sig(d, I=None, terms=None, n=0):
+    if I is not None and I.tuple_ref_after_dict_value_ref(terms, n):
+        return "graph-changed/tuple-ref-after-dict-value-ref"
     if d.startswith("aliasing lost"):
         return "aliasing-lost"
     if d.startswith("aliasing invented"):
@@ -261,7 +273,10 @@ def finding_witnesses(ctx, I):
     if not (err and "Violation" in err) or err2 or r[0] != "ok" or r[1] != [["after"]]:
         ctx.fail("oracle/send-failed/lone-surrogate-text", "text with a lone surrogate is not refused cleanly: first send: %s, next send: %s, "
                  "receiver: %r" % (err, err2, r), replay=dict(python='["\\ud800"] then ["after"]', first=err, second=err2, received=repr(r)[:300]))
-    for name, build in (("tuple-copyable-tuple", w3), ("tuple-copyable-dictkey", w4)):
+    def w5():
+        L = []; d = {}; T = (d, L); d["k"] = T; L.append(T); return T
+
+    for name, build in (("tuple-copyable-tuple", w3), ("tuple-copyable-dictkey", w4), ("tuple-dictvalue-then-list", w5)):
         g = build()
         try:
             terms, _ = I.canon_list_py([g], 0, True)
@@ -284,7 +299,8 @@ def finding_witnesses(ctx, I):
             continue
         d = I.oracle_iso([g], r[1])
         if d:
-            ctx.fail("oracle/" + oracle_sig(d), "round trip changed the graph: %s (%s)" % (d, name), replay=dict(case=name, term=key))
+            ctx.fail("oracle/" + oracle_sig(d, I, terms), "round trip changed the graph: %s; graph %s: %s" % (d, name, " ; ".join(key)[:300]),
+                     replay=dict(case=name, term=key, python='L=[]; d={}; T=(d,L); d["k"]=T; L.append(T)' if name.startswith("tuple-dictvalue") else name))
 
 
 def switch_case(ctx, I, i, switch_cases):
@@ -331,6 +347,10 @@ def switch_case(ctx, I, i, switch_cases):
             return
         d = I.oracle_iso([g1, g2], r[1])
         if d:
+            if I.tuple_ref_after_dict_value_ref([t1], 0) or I.tuple_ref_after_dict_value_ref([t2], n1 + 1):
+                ctx.fail("oracle/graph-changed/tuple-ref-after-dict-value-ref", "round trip changed the graph: %s; terms %s" % (d, key),
+                         replay=dict(case="switch%d" % i, term=key))
+                return
             ctx.fail("oracle/vocab-switch/" + oracle_sig(d), "vocabulary switch changed the graph (chunking %s): %s; new table %r" % (how, d, tbl1),
                      replay=dict(case="switch%d" % i, term=key, table=[x.hex() for x in tbl1], data=data.hex()[:4000]))
             return
@@ -392,7 +412,8 @@ def call_case(ctx, I, i, coq_cases):
     for (a, kw), (ra, rkw) in zip(argsets, P.target.calls):
         d = I.oracle_iso([list(a), kw], [list(ra), rkw])
         if d:
-            ctx.fail("oracle/call/" + oracle_sig(d), "arguments of a call changed in transit: %s" % d,
+            ctx.fail("oracle/call/" + oracle_sig(d) if not I.tuple_ref_after_dict_value_ref(terms, n0)
+                     else "oracle/graph-changed/tuple-ref-after-dict-value-ref", "arguments of a call changed in transit: %s" % d,
                      replay=dict(case="call%d" % i, args=repr((a, kw))[:1500]))
             return
     # ... and nothing is shared between the two calls, nor with the caller's objects
@@ -525,6 +546,9 @@ def correspond(ctx, I, coq_cases, switch_cases):
         for (c, _), v in zip(shard, vals):
             total += 1
             want = 15
+            if v == 14 and I.has_deferred_tuple(c["terms"], c["n"]):
+                ctx.hist("outcome", "outside-theorem-guard(deferred tuple), model agrees")
+                continue
             if v != want:
                 nbad += 1
                 what = []
